@@ -214,6 +214,12 @@ func genCase(rnd *rand.Rand, cfg genCfg, id int) *Case {
 	for i := 0; i < nn; i++ {
 		c.Nodes = append(c.Nodes, Node{Title: g.titles[i], Tracking: []string{"", "", "always", "never"}[rnd.Intn(4)]})
 	}
+	if cfg.CountJumps && nn >= 2 && rnd.Intn(2) == 0 {
+		// both kinds of node in one program: one that is never counted next to one that is
+		i := rnd.Intn(nn)
+		c.Nodes[i].Tracking = "never"
+		c.Nodes[(i+1)%nn].Tracking = []string{"", "always"}[rnd.Intn(2)]
+	}
 	for i := 0; i < nn; i++ {
 		var stmts []Stmt
 		if i > 0 && rnd.Intn(8) == 0 {
